@@ -1,6 +1,6 @@
 (* C09: case vocabulary, executable model runner and property predicate.
    The model follows the code WITH the repairs F01, F02, F03, F06, F12, F17. *)
-From OIDC Require Export Lib C09_Json C09_Codec C09_Verifier C09_Handler C09_Client C09_Crypto C09_Header C09_Auth C09_ReqObj C09_Redirect C09_Cred.
+From OIDC Require Export Lib C09_Json C09_Codec C09_Verifier C09_Handler C09_Client C09_Crypto C09_Header C09_Auth C09_ReqObj C09_Redirect C09_Cred C09_Server.
 
 (* per-case oracle tables, filled by the harness with the real functions' answers
    for every string of the document *)
@@ -72,7 +72,8 @@ Inductive input :=
 | IDevice (dev tok : answer) (t : tables)             (* device authorization answer, then polling the token endpoint with its interval *)
 | IOpaque (o : otoken)                               (* crypto.DecryptAES of a string of that make-up *)
 | IUserCode (charset_len amount dash : Z)            (* op.NewUserCode *)
-| ICred (k : kshape).                                (* otherwise valid request of a client registered per case: the BYTES of its id / secret x how they are sent *)
+| ICred (k : kshape)                                (* otherwise valid request of a client registered per case: the BYTES of its id / secret x how they are sent *)
+| IServer (u : ushape).                              (* a request to op.RegisterServer over a Server implementing the method SUBSET u_set (the rest is UnimplementedServer's) *)
 
 Inductive observed :=
 | ODecode (c : cls)
@@ -81,7 +82,8 @@ Inductive observed :=
 | ORoute (k : rkind)
 | OClient (c : cres)
 | OHint (r : hres)
-| OUserCode (c : cls).
+| OUserCode (c : cls)
+| OServer (a : uans).
 
 Definition model (i : input) : observed :=
   match i with
@@ -102,6 +104,15 @@ Definition model (i : input) : observed :=
   | IUserCode n amount dash =>
       OUserCode (if (n <=? 0)%Z || (amount <=? 0)%Z then KErr else KOk)
   | ICred k => OHint (cred_handler true true k)
+  | IServer u => OServer (web_server u)
+  end.
+
+(* ground truth of an IServer input: the pipeline of the route reaches a method that is outside the implemented set
+   (every earlier method is implemented and returned without error on this request) *)
+Fixpoint reached_outside (S : list smethod) (ms : list smethod) (trace : list bool) : bool :=
+  match ms, trace with
+  | m :: ms', ok :: tr' => negb (in_set S m) || (ok && reached_outside S ms' tr')
+  | _, _ => false
   end.
 
 (* The property, on what the implementation answered: never a panic, never two
@@ -132,6 +143,12 @@ Definition spec (i : input) (o : observed) : bool :=
   | ICred _, OHint r => match r with HRefused | HAccepted => true | _ => false end
       (* the text asks for a well-formed answer, not for acceptance: whether the RIGHT credentials are accepted is the
          model's (and C05's) business - a deviation there shows as a model / implementation mismatch *)
+  | IServer u, OServer a =>         (* one well-formed answer; where an unimplemented method is reached: an error, never a token *)
+      match a with
+      | UAns st _ tok =>
+          if reached_outside (u_set u) (calls (u_route u)) (u_trace u) then (400 <=? st) && negb tok else true
+      | _ => false
+      end
   | _, _ => false
   end.
 
@@ -140,6 +157,7 @@ Definition wf (i : input) : bool :=
   | IHandler s => shape_wf s
   | IAuth a => ashape_wf a
   | ICred k => kshape_wf k
+  | IServer u => ushape_wf u
   | _ => true
   end.
 
@@ -166,8 +184,16 @@ Definition outcome_eqb (a b : outcome) : bool :=
   | _, _ => false
   end.
 
+Definition uans_eqb (a b : uans) : bool :=
+  match a, b with
+  | UAns s1 c1 t1, UAns s2 c2 t2 => Nat.eqb s1 s2 && errcode_eqb c1 c2 && Bool.eqb t1 t2
+  | UPanic, UPanic | UDouble, UDouble | UContinued, UContinued => true
+  | _, _ => false
+  end.
+
 Definition obs_eqb (a b : observed) : bool :=
   match a, b with
+  | OServer x, OServer y => uans_eqb x y
   | ODecode x, ODecode y => cls_eqb x y
   | OVerify x, OVerify y => vres_eqb x y
   | OHandler x, OHandler y => outcome_eqb x y
@@ -217,6 +243,12 @@ Definition path (i : input) (o : observed) : nat :=
   | IUserCode _ _ _, _ => 15
   | IDevice _ _ _, OClient c => match c with CRetOk => 43 | CRetErr => 44 | _ => 45 end
   | IOpaque o, ODecode c => match c with KOk => 46 | KErr => if ot_other o then 47 else 48 | KPanic => 49 end
+  | IServer u, OServer a =>
+      match calls (u_route u) with
+      | [] => 0
+      | _ => if reached_outside (u_set u) (calls (u_route u)) (u_trace u) then 90
+             else if success a then 91 else match u_trace u with [] => 93 | _ => 92 end
+      end
   | ICred k, OHint o =>
       match k_sent k, o with
       | SBasic _, HAccepted => 80
